@@ -225,7 +225,20 @@ def struct_eq_alternatives(items):
 def acceptance(f, L, name, noinline=None):
     """-> (straight DNF, {loop set canon: iteration DNF}, residual returns) of a validator"""
     b = f.need(name)
-    paths = sym.SymExec(f, b, inline=noinline).run()
+    # loop-free private predicates that only this validator uses (a requirement moved into a function of its own) are
+    # read as part of it
+    try:
+        from .names import names as role_names
+        own = role_names(f).exclusive_helpers(name)
+    except Exception:
+        own = set()
+
+    def inl(n):
+        r = noinline(n) if noinline is not None else None
+        if r is None and n in own:
+            return True
+        return r
+    paths = sym.SymExec(f, b, inline=inl).run()
     straight = []
     loops = {}
     residual = []
